@@ -69,6 +69,7 @@ class GState:
         self.arranged = False
         self.ug_aggs = None        # aggregate columns of an ungrouped summarize (finding F23)
         self.alias_since_summarize = False
+        self.joined = False          # a join happened (finding F45)
 
     def point(self):
         return f"{self.pid}@{self.k}"
@@ -340,6 +341,17 @@ class Gen:
         e = self.agg_expr0(st, ty, window)
         if e is not None and any(a is None for a in e[2]):
             return None
+        # finding F45 (third party): after a join, polars fails on horizontal max / min with a literal argument inside
+        # a window aggregate over a partition
+        if e is not None and window and getattr(st, "joined", False) and len(e) > 3 and e[3].get("partition_by"):
+            def bad(x):
+                if isinstance(x, list) and x and x[0] == "fn":
+                    if x[1] in ("horizontal_max", "horizontal_min") and any(isinstance(a, list) and a and a[0] in ("lit", "litc") for a in x[2]):
+                        return True
+                    return any(bad(a) for a in x[2])
+                return isinstance(x, list) and any(bad(a) for a in x if isinstance(a, list))
+            if any(bad(a) for a in e[2]):
+                return None
         return e
 
     def agg_expr0(self, st, ty, window: bool):
@@ -630,6 +642,8 @@ class Gen:
             verb = self.wchoice(verbs)
             if verb == "join":
                 s = self.gen_join(st)
+                if s is not None:
+                    st.joined = True
             elif verb == "union":
                 s = self.gen_union(st)
             else:
